@@ -464,9 +464,9 @@ def rule_r1(ctx: Ctx, classes: List[ClassInfo]) -> None:
                 ctx.ok("C08-R1", ci.where, "defines __eq__ and binds __hash__ explicitly")
             else:
                 ctx.violation("C08-R1", ci.methods["__eq__"], ci.methods["__eq__"].node,
-                              f"class {ci.name} defines __eq__ but not __hash__: Python sets __hash__ = None, instances become unhashable")
+                              f"class {ci.name} defines __eq__ but not __hash__: Python sets __hash__ = None, instances become unhashable", robust=True)
         elif "__hash__" in ci.assigns and is_const(ci.assigns["__hash__"]):
-            ctx.violation("C08-R1", ci.where, ci.assign_nodes["__hash__"], f"class {ci.name} sets __hash__ = None", file=ci.module.relpath)
+            ctx.violation("C08-R1", ci.where, ci.assign_nodes["__hash__"], f"class {ci.name} sets __hash__ = None", file=ci.module.relpath, robust=True)
 
 
 def rule_r2_r3(ctx: Ctx, classes: List[ClassInfo]) -> Dict[str, HashInfo]:
@@ -485,7 +485,7 @@ def rule_r2_r3(ctx: Ctx, classes: List[ClassInfo]) -> Dict[str, HashInfo]:
                     ctx.ok("C08-R2", ci.where, f"__hash__ is bound to the builtin value hash {src}.__hash__ of its base type")
                     ctx.ok("C08-R3", ci.where, f"builtin {src} hash: equal {src}s hash equally; the class's __eq__ only adds a class test")
                 elif src == "object":
-                    ctx.violation("C08-R2", ci.where, ci.assign_nodes["__hash__"], f"{ci.name} hashes by identity (object.__hash__) although it defines value equality", file=ci.module.relpath)
+                    ctx.violation("C08-R2", ci.where, ci.assign_nodes["__hash__"], f"{ci.name} hashes by identity (object.__hash__) although it defines value equality", file=ci.module.relpath, robust=True)
                 else:
                     raise AnalysisError(f"{ci.where}: __hash__ is bound to `{unparse(v)}`, which is not the hash of one of its base types")
             else:
@@ -503,7 +503,7 @@ def rule_r2_r3(ctx: Ctx, classes: List[ClassInfo]) -> Dict[str, HashInfo]:
         if info.bad:
             for bfi, node, msg in info.bad:
                 # reported where the offending expression is (a delegating subclass inherits the defect)
-                ctx.violation("C08-R2", bfi, node if hasattr(node, "lineno") else bfi.node, msg)
+                ctx.violation("C08-R2", bfi, node if hasattr(node, "lineno") else bfi.node, msg, robust=True)
         else:
             ctx.ok("C08-R2", hf.where, f"hash is value based over fields {sorted(info.fields)}", hf.node, hf)
         _r3(ctx, repo, ci, hf, info)
@@ -519,7 +519,7 @@ def _r3(ctx: Ctx, repo: Repo, ci: ClassInfo, hf: FuncInfo, info: "HashInfo") -> 
     else:
         eqf, odd = eq_fields(repo, ef)
     for node, msg in odd:
-        ctx.violation("C08-R3", ef, node, f"__eq__ {msg}")
+        ctx.violation("C08-R3", ef, node, f"__eq__ {msg}", robust=True)
     hfields = {f for f in info.fields if not f.startswith("<cached:")}
     if info.bad:
         return
@@ -529,7 +529,7 @@ def _r3(ctx: Ctx, repo: Repo, ci: ClassInfo, hf: FuncInfo, info: "HashInfo") -> 
         raise AnalysisError(f"{ef.where if ef else ci.where}: __eq__ contains a comparison whose operands are not plain fields; which fields equality looks at is not decided")
     else:
         ctx.violation("C08-R3", hf, hf.node,
-                      f"__hash__ reads {sorted(hfields - eqf)} which {ef.where if ef else 'the inherited __eq__'} does not compare: equal objects may hash differently")
+                      f"__hash__ reads {sorted(hfields - eqf)} which {ef.where if ef else 'the inherited __eq__'} does not compare: equal objects may hash differently", robust=True)
 
 
 def _never_instantiated_private_base(repo: Repo, ci: ClassInfo) -> bool:
@@ -659,7 +659,7 @@ def rule_r4(ctx: Ctx, classes: List[ClassInfo], hashinfo: Dict[str, HashInfo]) -
         ab, ba = _eq_outcome(repo, a, b), _eq_outcome(repo, b, a)
         if ab != ba:
             fa = effective(repo, a, "__eq__") or effective(repo, b, "__eq__")
-            ctx.violation("C08-R4", fa, fa.node, f"equality is not symmetric between {a} and {b}: {a}()=={b}() -> {ab}, {b}()=={a}() -> {ba}")
+            ctx.violation("C08-R4", fa, fa.node, f"equality is not symmetric between {a} and {b}: {a}()=={b}() -> {ab}, {b}()=={a}() -> {ba}", robust=True)
         if "compare" in (ab, ba):
             adj[a].add(b)
             adj[b].add(a)
@@ -687,7 +687,7 @@ def rule_r4(ctx: Ctx, classes: List[ClassInfo], hashinfo: Dict[str, HashInfo]) -
                 bridge = sorted(c for c in comp if c not in (a, b) and "compare" in (_eq_outcome(repo, a, c), _eq_outcome(repo, c, a)) and "compare" in (_eq_outcome(repo, b, c), _eq_outcome(repo, c, b)))
                 if bridge:
                     fa = effective(repo, a, "__eq__") or effective(repo, b, "__eq__")
-                    ctx.violation("C08-R4", fa, fa.node, f"equality is not transitive: a {a} and a {b} with the same field values are never equal to each other, although each can equal the same {bridge[0]} (and hash like it)")
+                    ctx.violation("C08-R4", fa, fa.node, f"equality is not transitive: a {a} and a {b} with the same field values are never equal to each other, although each can equal the same {bridge[0]} (and hash like it)", robust=True)
     for comp in groups:
         roots: Dict[str, str] = {}
         for c in sorted(comp):
@@ -726,14 +726,14 @@ def rule_r4(ctx: Ctx, classes: List[ClassInfo], hashinfo: Dict[str, HashInfo]) -
                     hf = effective(repo, c, "__hash__")
                     if hf is not None and hf.cls is not None and hf.cls.name == c:
                         ctx.violation("C08-R4", hf, hf.node,
-                                      f"{c} may compare equal to other members of {sorted(comp)} but its __hash__ ({r}) is not the group's hash function ({major})")
+                                      f"{c} may compare equal to other members of {sorted(comp)} but its __hash__ ({r}) is not the group's hash function ({major})", robust=True)
                     elif hf is None:
-                        ctx.violation("C08-R4", repo.cls(c).where, repo.cls(c).node, f"{c} hashes by {r} but may equal members of {sorted(comp)} hashing by {major}", file=repo.cls(c).module.relpath)
+                        ctx.violation("C08-R4", repo.cls(c).where, repo.cls(c).node, f"{c} hashes by {r} but may equal members of {sorted(comp)} hashing by {major}", file=repo.cls(c).module.relpath, robust=True)
         # a class-dependent hash inside a multi-class group
         for c in sorted(comp):
             if c in hashinfo and hashinfo[c].uses_class:
                 hf = effective(repo, c, "__hash__")
-                ctx.violation("C08-R4", hf, hf.node, f"__hash__ depends on the dynamic class but {sorted(comp)} may compare equal across classes")
+                ctx.violation("C08-R4", hf, hf.node, f"__hash__ depends on the dynamic class but {sorted(comp)} may compare equal across classes", robust=True)
     return groups
 
 
@@ -747,7 +747,7 @@ def rule_r5_r6(ctx: Ctx, classes: List[ClassInfo], groups: List[Set[str]]) -> No
             missing = sorted(set(CMP) - set(own))
             inherited = [m for m in missing if effective(repo, ci.name, m) is None]
             if inherited:
-                ctx.violation("C08-R6", ci.methods[own[0]], ci.methods[own[0]].node, f"{ci.name} defines {own} but not {inherited}: ordering is partial")
+                ctx.violation("C08-R6", ci.methods[own[0]], ci.methods[own[0]].node, f"{ci.name} defines {own} but not {inherited}: ordering is partial", robust=True)
         group = next(g for g in groups if ci.name in g)
         inheritors = [s.name for s in repo.subclasses(ci.name, strict=True) if all(effective(repo, s.name, m) is ci.methods.get(m) for m in own)]
         keys: Dict[str, Tuple[str, str]] = {}
@@ -757,11 +757,11 @@ def rule_r5_r6(ctx: Ctx, classes: List[ClassInfo], groups: List[Set[str]]) -> No
             # ---- R5
             if g.kind == "dynamic" and inheritors:
                 ctx.violation("C08-R5", fi, g.node,
-                              f"type guard on the dynamic class: for operands of different classes among {sorted({ci.name, *inheritors})} both {m} and its reflection answer NotImplemented, so the comparison raises TypeError (sorted() of mixed patterns fails)")
+                              f"type guard on the dynamic class: for operands of different classes among {sorted({ci.name, *inheritors})} both {m} and its reflection answer NotImplemented, so the comparison raises TypeError (sorted() of mixed patterns fails)", robust=True)
             elif g.kind == "named":
                 uncovered = [c for c in sorted(group) if not (g.names & {k.name for k in repo.mro(c)})]
                 if uncovered and len(group) > 1:
-                    ctx.violation("C08-R5", fi, g.node, f"type guard {sorted(g.names)} excludes {uncovered} of the equality group {sorted(group)}")
+                    ctx.violation("C08-R5", fi, g.node, f"type guard {sorted(g.names)} excludes {uncovered} of the equality group {sorted(group)}", robust=True)
                 else:
                     ctx.ok("C08-R5", fi.where, f"guard on fixed class {sorted(g.names)} covers the group {sorted(group)}", g.node, fi)
             else:
@@ -1046,7 +1046,7 @@ def rule_r6_semantic(ctx: Ctx, ci: ClassInfo, own: List[str]) -> None:
             if any(v == "NotImplemented" for v in results):
                 raise AnalysisError(f"{ci.methods[m].where}: returns NotImplemented for operands of the group")
             if len({bool(v) for v in results}) != 1:
-                ctx.violation("C08-R6", ci.methods[m], ci.methods[m].node, f"{m} gives different answers for equal operands depending on whether a component is the very same object (identity test): when {case}")
+                ctx.violation("C08-R6", ci.methods[m], ci.methods[m].node, f"{m} gives different answers for equal operands depending on whether a component is the very same object (identity test): when {case}", robust=True)
                 return
             vals.append(bool(results[0]))
         table[m] = vals
@@ -1054,7 +1054,7 @@ def rule_r6_semantic(ctx: Ctx, ci: ClassInfo, own: List[str]) -> None:
     orders = [list(p) for p in itertools.permutations(comps)]
     if tuple_sub:
         if set(comps) != {"len($)", "tuple($)"}:
-            ctx.violation("C08-R6", first, first.node, f"ordering of the tuple subclass {ci.name} uses the key components {comps}; 'by length then lexicographically' is (len, entries)")
+            ctx.violation("C08-R6", first, first.node, f"ordering of the tuple subclass {ci.name} uses the key components {comps}; 'by length then lexicographically' is (len, entries)", robust=True)
             return
         orders = [["len($)", "tuple($)"]]
     best = None
@@ -1076,7 +1076,7 @@ def rule_r6_semantic(ctx: Ctx, ci: ClassInfo, own: List[str]) -> None:
                 continue
             seen.add(m)
             fi = ci.methods[m]
-            ctx.violation("C08-R6", fi, fi.node, f"{m} is not `{sym[m]}` of the total order by ({', '.join(c.replace('$', 'self') for c in order)}): when {pretty(case)} it returns {got}, the order gives {want}")
+            ctx.violation("C08-R6", fi, fi.node, f"{m} is not `{sym[m]}` of the total order by ({', '.join(c.replace('$', 'self') for c in order)}): when {pretty(case)} it returns {got}, the order gives {want}", robust=True)
     else:
         for m in own:
             fi = ci.methods[m]
@@ -1096,7 +1096,7 @@ def rule_r6_semantic(ctx: Ctx, ci: ClassInfo, own: List[str]) -> None:
         elif "<unrecognised>" in eqf:
             raise AnalysisError(f"{ef.where}: __eq__ contains a comparison whose operands are not plain fields; consistency of the order with == is not decided")
         else:
-            ctx.violation("C08-R6", first, first.node, f"ordering key fields {sorted(kfields)} differ from equality fields {sorted(eqf)}: order inconsistent with ==")
+            ctx.violation("C08-R6", first, first.node, f"ordering key fields {sorted(kfields)} differ from equality fields {sorted(eqf)}: order inconsistent with ==", robust=True)
     elif tuple_sub:
         ctx.ok("C08-R6", ci.where, "tuple subclass ordered by (length, entries); key equality <=> tuple equality")
 
@@ -1108,12 +1108,12 @@ def check_key_components(ctx: Ctx, ci: ClassInfo, fi: FuncInfo, key: ast.AST, no
     for comp in key_components(key):
         ch = attr_chain(comp)
         if ch and len(ch) == 2 and ch[0] == self_n and ch[1] in sets:
-            ctx.violation("C08-R6", fi, node, f"key component self.{ch[1]} is a set: '<' on sets is inclusion, not a total order")
+            ctx.violation("C08-R6", fi, node, f"key component self.{ch[1]} is a set: '<' on sets is inclusion, not a total order", robust=True)
             return
         if isinstance(comp, ast.Call):
             cn = call_name(comp)
             if cn in (("set",), ("frozenset",)):
-                ctx.violation("C08-R6", fi, node, f"key component {unparse(comp)} is a set: '<' on sets is inclusion, not a total order")
+                ctx.violation("C08-R6", fi, node, f"key component {unparse(comp)} is a set: '<' on sets is inclusion, not a total order", robust=True)
                 return
             if cn in (("sorted",), ("tuple",), ("len",), ("list",)):
                 continue
@@ -1180,20 +1180,20 @@ def rule_r7(ctx: Ctx, classes: List[ClassInfo]) -> None:
                         val = node.value if isinstance(node, (ast.Assign, ast.AnnAssign)) else None
                         verdict = immut_class(repo, fi, val) if val is not None else "unknown"
                         if verdict == "mutable":
-                            ctx.violation("C08-R7", fi, node, f"hashed field {t.attr} is stored as a mutable container")
+                            ctx.violation("C08-R7", fi, node, f"hashed field {t.attr} is stored as a mutable container", robust=True)
                         else:
                             ctx.ok("C08-R7", fi.where, f"hashed field {t.attr} written in constructor ({verdict} value)", node, fi)
                     elif owner_has or isinstance(t.value, ast.Name):
                         # a store to x.<field> outside a constructor: only a violation when x may be a family instance
                         if owner_has or not _receiver_foreign(repo, fi, t, family):
-                            ctx.violation("C08-R7", fi, node, f"field {t.attr} (read by __eq__/__hash__) is assigned outside a constructor: hash may change during the object's lifetime")
+                            ctx.violation("C08-R7", fi, node, f"field {t.attr} (read by __eq__/__hash__) is assigned outside a constructor: hash may change during the object's lifetime", robust=True)
             if isinstance(node, ast.Call):
                 cn = call_name(node)
                 if cn in (("setattr",), ("object", "__setattr__")) and len(node.args) >= 2 and isinstance(node.args[1], ast.Constant) and node.args[1].value in allf:
-                    ctx.violation("C08-R7", fi, node, f"setattr on hashed field {node.args[1].value}")
+                    ctx.violation("C08-R7", fi, node, f"setattr on hashed field {node.args[1].value}", robust=True)
                 # in-place mutation of a hashed field value
                 if cn and len(cn) == 3 and cn[1] in allf and cn[1] not in immutable_fields and cn[2] in MUTATORS and fi.cls is not None and fi.cls.name in family:
-                    ctx.violation("C08-R7", fi, node, f"in-place mutation of hashed field {cn[1]}")
+                    ctx.violation("C08-R7", fi, node, f"in-place mutation of hashed field {cn[1]}", robust=True)
     if stores == 0:
         raise AnalysisError("C08-R7: no constructor store of a hashed field found")
 
@@ -1334,7 +1334,7 @@ def rule_r8(ctx: Ctx, classes: List[ClassInfo]) -> None:
         elif builtin:
             ctx.violation("C08-R8", ci.methods["__eq__"], ci.methods["__eq__"].node,
                           f"{ci.name} overrides __eq__ but inherits `!=` from {builtin[0]}: for an operand its __eq__ rejects (another kind of object with the same entries) both `==` and `!=` are False",
-                          tag="ne-not-negation-of-eq")
+                          tag="ne-not-negation-of-eq", robust=True)
         else:
             ctx.ok("C08-R8", ci.where, "`!=` is derived from __eq__ (no base class defines __ne__)", ci.methods["__eq__"].node, ci.methods["__eq__"])
     if n == 0:
